@@ -79,6 +79,12 @@ func Seen(site int, v interface{}) bool {
 	return true
 }
 
+// Arm is a no-op here (the machine-level variant of this package uses it to skip warm-up runs).
+func Arm(on bool) {}
+
+// Machine reports whether signatures are computed outside the process (machine-level variant only).
+func Machine() bool { return false }
+
 // Start begins a recording.
 func Start() { h, count, on = 14695981039346656037, 0, true }
 
